@@ -51,7 +51,7 @@ def refProg (ash : Bool) : Prog â†’ RFrame â†’ (List (Kind Ã— Val) Ã— Outcome) Ã
     let pre := (Kind.enter, Val.ok) :: rb.1.1 ++ [(Kind.exit, Val.ok)]
     match rb.1.2 with
     | .raised t =>
-      if c then
+      if c && t == "user" then
         let rk := refProg ash k f          -- â€¦ and the state from BEFORE the block is back
         ((pre ++ rk.1.1, rk.1.2), rk.2)
       else ((pre, .raised t), f)
